@@ -208,6 +208,15 @@ func Concat(a, b *List) *List {
 // short-circuit form lives in the interpreter; AndOr is their strict table).
 func (in *Interp) Binary(op string, a, b Value) (Value, error) {
 	v, err := binary(op, a, b)
+	if in != nil {
+		// an operand that is a FAILING list of unspecified order: how far an operator gets
+		// before it meets the failing item (membership stops at the first hit) depends on the order
+		for _, x := range []Value{a, b} {
+			if l, ok := x.(*List); ok && l.Unordered && l.Err != nil {
+				in.OrderLeak = true
+			}
+		}
+	}
 	if in != nil && op == "~" {
 		if x, ok := a.(*List); ok {
 			if y, ok := b.(*List); ok && len(y.Items) < len(x.Items) {
